@@ -48,6 +48,9 @@ def cases(tier, seed):
     for name in c14.MODELS:
         for e in scales:
             yield dict(kind='report', model=name, scale=e)
+        # purely real negative, purely imaginary and unit-magnitude voltages (the listing's magnitude / phase line)
+        for v in ((-1., 0.), (-2.5, 0.), (0., 1.), (0., -3.), (0.6, -0.8)):
+            yield dict(kind='report', model=name, scale=0, volt=list(v))
 
 
 def readback_ok(s, v):
@@ -89,15 +92,24 @@ def evaluate(c):
     # ---- whole report
     name, sc = c['model'], 10.0 ** c['scale']
     m = c14.model(name)
-    for s in m.sources:
-        s.voltage = s.voltage * sc
-        s.magnitude = abs(s.voltage)
+    if c.get('volt'):
+        # sources rebuilt through the constructor with the given complex voltage
+        idxs = [s.idx for s in m.sources]
+        m.sources = []
+        for i_ in idxs:
+            m.register_source(mm.Excitation(complex(*c['volt'])), i_)
+    else:
+        idxs = [s.idx for s in m.sources]
+        volts = [s.voltage * sc for s in m.sources]
+        m.sources = []
+        for i_, v_ in zip(idxs, volts):
+            m.register_source(mm.Excitation(complex(v_)), i_)
     lam = geom.C_MININEC / m.f
     if name == 'laplace':
         # a second, order-4 rational load (two lossy traps in series written as one function) on another pulse
         m.register_load(mm.Laplace_Load(a=[1., 1.5e-10, 1.5e-16, 7.5e-27, 2.5e-33], b=[2., 3.0000003e-06, 4.5e-16, 2.25e-22, 0.]), 1)
     m.compute()
-    label = '%s x1e%d' % (name, c['scale'])
+    label = '%s x1e%d%s' % (name, c['scale'], ' V=%s' % c['volt'] if c.get('volt') else '')
 
     def chk(sig, s, v, what):
         nonlocal ev
